@@ -12,6 +12,9 @@ pub mod h_swar;
 pub mod h_float_tok;
 pub mod h_special;
 pub mod h_bound;
+pub mod h_special_write;
+#[cfg(any(feature = "compact", feature = "radix"))]
+pub mod h_bellerophon;
 #[cfg(feature = "power-of-two")]
 pub mod h_float_bin;
 #[cfg(feature = "power-of-two")]
@@ -44,6 +47,11 @@ pub fn all_harnesses() -> Vec<Harness> {
     v.extend_from_slice(h_float_tok::HARNESSES);
     v.extend_from_slice(h_special::HARNESSES);
     v.extend_from_slice(h_bound::HARNESSES);
+    v.extend_from_slice(h_special_write::HARNESSES);
+    #[cfg(feature = "compact")]
+    v.extend_from_slice(h_bellerophon::dec::HARNESSES);
+    #[cfg(feature = "radix")]
+    v.extend_from_slice(h_bellerophon::radix::HARNESSES);
     #[cfg(feature = "power-of-two")]
     v.extend_from_slice(h_float_bin::HARNESSES);
     #[cfg(feature = "power-of-two")]
